@@ -7,7 +7,7 @@
 use rre_verif::*;
 use rust_rule_engine::streaming::event::StreamEvent;
 use rust_rule_engine::streaming::watermark::{
-    LateDataStrategy, WatermarkStrategy, WatermarkedStream,
+    LateDataHandler, LateDataStrategy, LateEventDecision, Watermark, WatermarkGenerator, WatermarkStrategy, WatermarkedStream,
 };
 use std::collections::HashMap;
 use std::time::Duration;
@@ -31,6 +31,10 @@ struct Case {
     late: Late,
     base: u64,
     ts: Vec<u64>,
+    /// the same offers made to a WatermarkGenerator + LateDataHandler pair driven by hand (the two
+    /// components WatermarkedStream is assembled from), with `clear_side_output()` called by the
+    /// consumer before the offers whose indices are listed
+    clears: Option<Vec<usize>>,
 }
 
 impl Case {
@@ -40,6 +44,7 @@ impl Case {
             "late": match &self.late { Late::Drop => json!("drop"), Late::Allowed(l) => json!({"allowed_lateness_ms": l}), Late::Side => json!("side_output"), Late::Recompute => json!("recompute") },
             "base": self.base,
             "timestamps": self.ts,
+            "components_driven_by_hand_with_clear_side_output_before_offers": self.clears,
         })
     }
     fn from_json(j: &Json) -> Option<Case> {
@@ -58,6 +63,7 @@ impl Case {
             late,
             base: j["base"].as_u64().unwrap_or(0),
             ts: j["timestamps"].as_array()?.iter().filter_map(|v| v.as_u64()).collect(),
+            clears: j.get("components_driven_by_hand_with_clear_side_output_before_offers").and_then(|v| v.as_array()).map(|a| a.iter().filter_map(|v| v.as_u64()).map(|v| v as usize).collect()),
         })
     }
     fn late_name(&self) -> &'static str {
@@ -76,8 +82,117 @@ struct Obs {
     boundary_events: u64,
 }
 
+fn strategies(c: &Case) -> (WatermarkStrategy, LateDataStrategy) {
+    let ws = match &c.wm {
+        Wm::Bounded(d) => WatermarkStrategy::BoundedOutOfOrder { max_delay: Duration::from_millis(*d) },
+        Wm::Monotonic => WatermarkStrategy::MonotonicAscending,
+    };
+    let ls = match &c.late {
+        Late::Drop => LateDataStrategy::Drop,
+        Late::Allowed(l) => LateDataStrategy::AllowedLateness { max_lateness: Duration::from_millis(*l) },
+        Late::Side => LateDataStrategy::SideOutput,
+        Late::Recompute => LateDataStrategy::RecomputeWindows,
+    };
+    (ws, ls)
+}
+
+/// The two components driven the way WatermarkedStream drives them (is the event late against
+/// the generator's current watermark? then the handler decides; otherwise the generator sees it),
+/// plus a consumer that drains the side output now and then. Monitored after every offer: the
+/// handler's decision, the cumulative counters (total_late counts every late event ever offered,
+/// drained or not), the side-output buffer, watermark monotonicity.
+fn run_components(c: &Case, clears: &[usize]) -> (Option<(String, String, String)>, Obs) {
+    let (ws, ls) = strategies(c);
+    let mut gen = WatermarkGenerator::new(ws);
+    let mut h = LateDataHandler::new(ls);
+    let mut obs = Obs { late_events: 0, wm_advances: 0, boundary_events: 0 };
+    let (mut exp_late, mut exp_dropped, mut exp_allowed) = (0usize, 0usize, 0usize);
+    let mut exp_side: Vec<String> = Vec::new();
+    let mut drained = 0usize;
+    for (i, &t) in c.ts.iter().enumerate() {
+        if clears.contains(&i) {
+            drained += h.side_output().len();
+            h.clear_side_output();
+            exp_side.clear();
+        }
+        let ts = c.base + t;
+        let id = format!("e{}", i);
+        let mut ev = StreamEvent::with_timestamp("T", HashMap::new(), "src", ts);
+        ev.id = id.clone();
+        let wm_before: Watermark = gen.current_watermark();
+        let late = ts < wm_before.timestamp;
+        if gen.is_late(&ev) != late {
+            return (Some(("late-iff-below-watermark".into(), "WatermarkGenerator::is_late".into(), format!("offer #{} ts {} watermark {}: is_late returned {}", i, ts, wm_before.timestamp, !late))), obs);
+        }
+        if late {
+            obs.late_events += 1;
+            exp_late += 1;
+            let lateness = wm_before.timestamp - ts;
+            let want = match &c.late {
+                Late::Drop => "drop",
+                Late::Allowed(l) => {
+                    if lateness <= *l {
+                        "process"
+                    } else {
+                        "drop"
+                    }
+                }
+                Late::Side => "side",
+                Late::Recompute => "recompute",
+            };
+            match want {
+                "drop" => exp_dropped += 1,
+                "process" | "recompute" => exp_allowed += 1,
+                _ => exp_side.push(id.clone()),
+            }
+            let got = match h.handle_late_event(ev, &wm_before) {
+                LateEventDecision::Drop => "drop",
+                LateEventDecision::Process(_) => "process",
+                LateEventDecision::SideOutput(_) => "side",
+                LateEventDecision::Recompute(_) => "recompute",
+            };
+            if got != want {
+                let cause = match &c.late {
+                    Late::Allowed(l) => format!("allowed-lateness:{}", if lateness == *l { "lateness-equals-bound" } else if lateness < *l { "lateness-below-bound" } else { "lateness-above-bound" }),
+                    _ => c.late_name().to_string(),
+                };
+                return (Some(("routing".into(), cause, format!("offer #{} ts {} (watermark {}, lateness {}): handler decided {:?}, the strategy prescribes {:?}", i, ts, wm_before.timestamp, lateness, got, want))), obs);
+            }
+        } else {
+            let _ = gen.process_event(&ev);
+            let after = gen.current_watermark().timestamp;
+            if after < wm_before.timestamp {
+                return (Some(("watermark-monotone".into(), "after-on-time-event".into(), format!("offer #{} ts {}: watermark went from {} back to {}", i, ts, wm_before.timestamp, after))), obs);
+            }
+            if after > wm_before.timestamp {
+                obs.wm_advances += 1;
+            }
+        }
+        let st = h.stats();
+        let got_side: Vec<String> = h.side_output().iter().map(|e| e.id.clone()).collect();
+        if st.total_late != exp_late || st.dropped != exp_dropped || st.allowed != exp_allowed || st.side_output != exp_side.len() || got_side != exp_side || st.dropped + st.allowed + st.side_output + drained != exp_late {
+            let cause = if drained > 0 { format!("{}|after-clear_side_output", c.late_name()) } else { c.late_name().to_string() };
+            return (
+                Some((
+                    "conservation".into(),
+                    cause,
+                    format!(
+                        "after offer #{}: handler stats {:?}, side buffer {:?}, {} side events drained by the consumer; expected total_late {} dropped {} allowed {} side buffer {:?}",
+                        i, st, got_side, drained, exp_late, exp_dropped, exp_allowed, exp_side
+                    ),
+                )),
+                obs,
+            );
+        }
+    }
+    (None, obs)
+}
+
 /// Run one case under the step monitor. Returns (first violation as (clause, cause, detail)), observations.
 fn run_case(c: &Case) -> (Option<(String, String, String)>, Obs) {
+    if let Some(clears) = &c.clears {
+        return run_components(c, clears);
+    }
     let ws = match &c.wm {
         Wm::Bounded(d) => WatermarkStrategy::BoundedOutOfOrder {
             max_delay: Duration::from_millis(*d),
@@ -356,12 +471,13 @@ impl Check for C13 {
         "C13"
     }
     fn rule(&self) -> String {
-        "exhaustive: every timestamp sequence of length L over 0..=6 ms x bounded-out-of-order delays 0..=4 ms (+ monotonic) x 6 late-data configurations, step-monitored after every add_event (so every prefix is checked); random: lengths 1..=12 over a dense domain, also on an epoch-sized base. A case is non-trivial when at least one event was late AND the watermark advanced at least once; distinct by (configuration, timestamp sequence).".into()
+        "exhaustive: every timestamp sequence of length L over 0..=6 ms x bounded-out-of-order delays 0..=4 ms (+ monotonic) x 6 late-data configurations, step-monitored after every add_event (so every prefix is checked); the Side and Allowed(1) configurations once more through a WatermarkGenerator + LateDataHandler pair driven by hand with the consumer calling clear_side_output() before offers #2 and #4; random: lengths 1..=12 over a dense domain, also on an epoch-sized base, one in four on a time scale of x100..x1000 (delays and lateness bounds of a second and more), one in three through the hand-driven components with clear_side_output() at random points. A case is non-trivial when at least one event was late AND the watermark advanced at least once; distinct by (configuration, timestamp sequence).".into()
     }
     fn assumptions(&self) -> Vec<String> {
         vec![
             "AllowedLateness admits lateness <= bound (the type documents the bound as the maximum allowed lateness)".into(),
             "'treated as late' is observed through late_stats().total_late and the event/side-output lists".into(),
+            "total_late counts every late event ever offered to the handler; draining the side output (clear_side_output) empties the buffer and stats().side_output but not total_late".into(),
         ]
     }
     fn explore(&self, cli: &Cli, st: &mut Stats) {
@@ -386,8 +502,13 @@ impl Check for C13 {
                     loop {
                         let mut ts = vec![*first];
                         ts.extend(idx.iter().copied());
-                        let c = Case { wm: wm.clone(), late: late.clone(), base: 0, ts };
+                        let c = Case { wm: wm.clone(), late: late.clone(), base: 0, ts, clears: None };
                         check_case(&c, st);
+                        // the same offers through the hand-driven components, side output drained before offer #2 (and #4)
+                        if matches!(late, Late::Side | Late::Allowed(1)) {
+                            let c2 = Case { clears: Some(vec![2, 4]), ..c };
+                            check_case(&c2, st);
+                        }
                         // odometer
                         let mut k = 0;
                         loop {
@@ -440,7 +561,19 @@ impl Check for C13 {
                     }
                     _ => {}
                 }
-                check_case(&Case { wm, late, base, ts }, st);
+                // one case in four on a coarser time scale (bounds and lateness of a second and more)
+                let scale = if rng.chance(1, 4) { *rng.pick(&[100u64, 250, 500, 1000]) } else { 1 };
+                let wm = match wm {
+                    Wm::Bounded(d) => Wm::Bounded(d * scale),
+                    w => w,
+                };
+                let late = match late {
+                    Late::Allowed(l) => Late::Allowed(l * scale),
+                    l => l,
+                };
+                let ts: Vec<u64> = ts.iter().map(|t| t * scale).collect();
+                let clears = if rng.chance(1, 3) { Some((0..n).filter(|_| rng.chance(1, 4)).collect()) } else { None };
+                check_case(&Case { wm, late, base, ts, clears }, st);
             }
         });
     }
